@@ -17,6 +17,9 @@ VARIANTS = {
              "run_env": {"ASAN_OPTIONS": "halt_on_error=1:abort_on_error=1:detect_leaks=0:symbolize=1"}},
 }
 
+VARIANTS["miri"] = {"launcher": ["cargo", "+nightly", "miri", "run", "--offline", "--bin", "vrun", "--"],
+                    "env": {"MIRIFLAGS": "-Zmiri-disable-isolation"}}
+
 # the eight feature subsets (C16)
 for hist in (0, 1):
     for ac in (0, 1):
@@ -225,3 +228,45 @@ PLANS["C10"]["exhaustive_note"] = {
     "thorough": "closure stage only: budgets 0..=20 over pushes of {\"\", a, b, ab, é, abc, abcd, ba, €} + next_older + next_newer"}
 PLANS["C10"]["min_counts"]["quick"].update({"c10.closure.states": 8400})
 PLANS["C10"]["min_counts"]["thorough"].update({"c10.closure.states": 400000})
+
+
+PLANS["C14"] = {
+    "level": "fault_enumeration",
+    "rule": "corpus of scenarios (typing at end/inside, multi-byte, Backspace, Left/Right, Up/Down with history, Tab unique/ambiguous/partial/no match, Enter with silent/writing/prompt-changing handlers, every parse-error kind, help list/command/option/nested/unknown/hidden in plain and grouped sets, Cli::write with 0-3 lines, set_prompt, build) x three command sets; "
+            "each target is run fault-free to count its sink calls, then EVERY sink call position is failed in turn, once and permanently (sticky); clauses: that error is returned by the call during which the sink failed, no panic, the line is as before / as the key leaves it / empty with all structural invariants, "
+            "after repair `zz` + Enter dispatches exactly the tokens of the line with zz inserted at the cursor, Up recalls it. evaluation = one (scenario, position, mode) run plus its follow-up checks; distinct = hash of (scenario, position, mode); thorough adds three more buffer-size/prompt configurations per scenario",
+    "assumptions": ["an application that writes through core::fmt::Write cannot see the sink's error value (fmt::Error carries none); the harness handler maps it to a marker value which the library must pass on unchanged"],
+    "exhaustive": {"quick": True, "thorough": True},
+    "exhaustive_note": {"quick": "every write/flush call position of every scenario of the corpus, both failure modes", "thorough": "the same for four buffer/prompt configurations per scenario"},
+    "min_counts": {"quick": {"c14.scenarios": 130, "c14.positions_fired": 2400}, "thorough": {"c14.scenarios": 500, "c14.positions_fired": 9000}},
+    "stages": [{"variant": "dbg", "workload": "C14", "shards": 16}],
+}
+MANIFEST_TEXT["C14"] = {
+    "technique": "fault injection at the embedded_io::Write sink: every write/flush call position of every scenario failed in turn (once / sticky), monitors on the returned Result, hooked line, later dispatch and recall",
+    "design_ref": "DESIGN.md §6 C14",
+    "text": "Complete enumeration of sink-call fault positions over a ~130-scenario corpus (x4 configurations in thorough); says nothing about scenarios outside the corpus.",
+    "note": "Trusted base: MonSink fault injector, reference tokenizer/classifier, harness."}
+
+_C03_STAGES = [
+    {"variant": "dbg", "workload": "C03-sessions", "canary": ["unchecked-index", "unsafe precondition|non-unwinding panic"]},
+    {"variant": "dbg", "workload": "C03-components"},
+    {"variant": "asan", "workload": "C03-sessions", "args_quick": ["--scale", "0.25"], "args_thorough": ["--scale", "0.25"], "canary": ["heap-write-past-end", "AddressSanitizer"]},
+    {"variant": "asan", "workload": "C03-components"},
+    {"variant": "miri", "workload": "C03-lean", "canary": ["unchecked-index", "Undefined Behavior"], "timeout_quick": 1500, "timeout_thorough": 7200},
+    {"variant": "vg", "workload": "C03-sessions", "args_quick": ["--scale", "0.05"], "args_thorough": ["--scale", "0.05"], "canary": ["heap-write-past-end", "Invalid write"], "tiers": ["thorough"]},
+    {"variant": "vg", "workload": "C03-components", "args_quick": ["--scale", "0.1"], "args_thorough": ["--scale", "0.1"], "tiers": ["thorough"]},
+]
+PLANS["C03"] = {
+    "level": "exploration",
+    "rule": "hostile sessions (keys + malformed fragments + random bytes, Cli::write / set_prompt injected between any two bytes, three command sets, Cli::new and the builder) with command and history buffer sizes drawn from 0..=64 (thorough: every (cmd, hist) pair of 0..=64 x 0..=64 visited), and direct stress of Editor / History / Tokens / ArgList / Autocompletion / utils with any argument the safe API allows (NULs, over-long strings, arbitrary ranges and merges); "
+            "the same workloads under four UB monitors: debug-assertion build (std ub_checks on every unchecked slice/unwrap/char/copy op, overflow checks, the crate's debug_assert!s), AddressSanitizer on a checks-off build, Miri (lean driver without oracles), valgrind memcheck (thorough). Structural invariants of the hooked editor/history state after every call. "
+            "A worker dying by signal/abort/sanitizer report is re-run to identify the session. evaluation = one API call or component operation executed under a monitor; distinct = hash of (command size, history size, kind of call) / component run shape",
+    "assumptions": ["red-zone tools see the command and history buffers as separate exact-size heap allocations", "every sanitizer stage first proves its monitor live with a canary (UB planted in the harness itself)"],
+    "min_counts": {"quick": {"ops": 3000000, "c03.component.editor_runs": 10000, "c03.lean.ops": 40000}, "thorough": {"ops": 80000000, "c03.component.editor_runs": 250000, "c03.lean.ops": 250000}},
+    "stages": _C03_STAGES,
+}
+MANIFEST_TEXT["C03"] = {
+    "technique": "sanitizers and UB interpreters over hostile workloads: debug-assertion build (std ub_checks, overflow checks), AddressSanitizer, Miri, valgrind memcheck; invariant hooks on editor/history state; crash monitor on worker exit status",
+    "design_ref": "DESIGN.md §5, §6 C03",
+    "text": "No report from any of the four UB monitors and no invariant failure on the executions produced; each monitor proven live by a canary. Exploration: not memory safety in general.",
+    "note": "Trusted base: rustc ub_checks, ASan runtime, Miri, valgrind; harness. ASan/memcheck blind spots (intra-object, non-adjacent) mitigated by exact-size separate heap buffers and by Miri."}
